@@ -498,6 +498,53 @@ fn render_scene_mode(sc: &SceneP, mode: ListenerMode) -> ([f32; 2], bool) {
 	drop(keep);
 	([o[0], o[1]], finite)
 }
+/// oracle (i): the scene's track with a volume mapped from the listener distance (0 dB at 0 to -20 dB at `big_d`,
+/// linear), set through the handle with a tween of `dur_ns`; after the tween the emitter jumps to `ep2`.
+/// Returns the last frame of the fifth buffer after the jump.
+fn render_volume_follows_distance(sc: &SceneP, big_d: f64, ep2: V3, dur_ns: u64) -> [f32; 2] {
+	let mut st = new_state(4, 48000);
+	let lh = st.mgr.add_listener(mv(sc.lp), mq(sc.lq)).unwrap();
+	let b = spatial_builder(&st, 1, 1.0, 2.0, None, &Val::Fix(0.0), &Val::Fix(0.0), false);
+	let mut th = st.mgr.add_spatial_sub_track(lh.id(), mv(sc.ep), b).unwrap();
+	th.play(ProbeSoundData { signal: Signal::Constant { left: sc.l, right: sc.r }, length: None, log: new_log() }).unwrap();
+	st.callback(4);
+	th.set_volume(
+		Value::FromListenerDistance(Mapping { input_range: (0.0, big_d), output_range: (Decibels(0.0), Decibels(-20.0)), easing: Easing::Linear }),
+		Tween { start_time: StartTime::Immediate, duration: Duration::from_nanos(dur_ns), easing: Easing::Linear },
+	);
+	// 4 frames at 48 kHz are 83 us: the tween (at most 300 us) is over after 3 + 2 buffers
+	for _ in 0..(dur_ns / 83_000 + 3) {
+		st.callback(4);
+	}
+	th.set_position(mv(ep2), Tween { start_time: StartTime::Immediate, duration: Duration::ZERO, easing: Easing::Linear });
+	for _ in 0..4 {
+		st.callback(4);
+	}
+	let (o, _) = st.callback(4);
+	drop(lh);
+	[o[6], o[7]]
+}
+
+/// oracle (j): the scene's track nested in a pass-through spatial track that is bound to another listener.
+/// Returns the first rendered frame, and the frame rendered after the inner track's listener was dropped and removed.
+fn render_nested(sc: &SceneP) -> ([f32; 2], [f32; 2]) {
+	let mut st = new_state(4, 48000);
+	let other = st.mgr.add_listener(mv([sc.lp[0] + 7.0, sc.lp[1] - 3.0, sc.lp[2] + 2.0]), mq([0.0, 0.0, 0.0, 1.0])).unwrap();
+	let own = st.mgr.add_listener(mv(sc.lp), mq(sc.lq)).unwrap();
+	let ob = spatial_builder(&st, 1, 1.0, 2.0, None, &Val::Fix(0.0), &Val::Fix(0.0), false);
+	let mut outer = st.mgr.add_spatial_sub_track(other.id(), mv([sc.ep[0] + 1.0, sc.ep[1] + 2.0, sc.ep[2] - 4.0]), ob).unwrap();
+	let ib = spatial_builder(&st, 2, sc.mn, sc.mx, sc.att, &Val::Fix(sc.strength), &Val::Fix(0.0), false);
+	let mut inner = outer.add_spatial_sub_track(own.id(), mv(sc.ep), ib).unwrap();
+	inner.play(ProbeSoundData { signal: Signal::Constant { left: sc.l, right: sc.r }, length: None, log: new_log() }).unwrap();
+	let (o, _) = st.callback(1);
+	drop(own);
+	st.callback(1);
+	st.callback(1);
+	let (z, _) = st.callback(1);
+	drop(other);
+	([o[0], o[1]], [z[0], z[1]])
+}
+
 fn render_scene(sc: &SceneP) -> ([f32; 2], bool) {
 	render_scene_mode(sc, ListenerMode::Present)
 }
@@ -674,6 +721,47 @@ fn scene_oracles(sc: &SceneP, o: [f32; 2], bus_finite: bool, line: &str, out: &m
 		let cross = o[0] as f64 * sc.r as f64 - o[1] as f64 * sc.l as f64;
 		if cross.abs() > 1.0e-5 * (sc.l.abs().max(sc.r.abs()) as f64).powi(2).max(1e-12) {
 			out.oracle_fail("strength0_same_factor", line);
+		}
+	}
+	// (i) "a parameter mapped from listener distance follows that distance" - also after the tween that brought the
+	//     mapping in has ended: the track (no attenuation, strength 0, so the level is the volume alone) gets a volume
+	//     mapped linearly from the distance, 0 dB at distance 0 to -20 dB at distance D, through its handle with a
+	//     tween; when the tween is over the emitter jumps to another distance d2 < D; a few buffers later the level
+	//     has to be 10^(-20·(d2/D)/20) (documented decibel law and mapping, evaluated here over f64; the f32 distance
+	//     and volume arithmetic stay within 1e-4 of that, the two distances are at least 6 dB apart)
+	if amp > 1.0e-3 && d < 1.0e3 {
+		let mut rng = line_rng(line);
+		let d2 = if d > 1.0 { d / 3.0 } else { d + 3.0 };
+		let big_d = 2.0 * d.max(d2);
+		let dir = qrot(random_unit_quat(&mut rng), [1.0, 0.0, 0.0]);
+		let ep2 = f3(add3(lp, scale3(dir, d2)));
+		let dur = rng.pick(&[0u64, 50_000, 100_000, 300_000]);
+		let got = render_volume_follows_distance(sc, big_d, ep2, dur);
+		let d2_real = len3(sub3(d3(ep2), lp));
+		let want = 10f64.powf(-20.0 * (d2_real / big_d).clamp(0.0, 1.0) / 20.0);
+		if (got[0] as f64 - sc.l as f64 * want).abs() > 2.0e-4 * amp || (got[1] as f64 - sc.r as f64 * want).abs() > 2.0e-4 * amp {
+			out.oracle_fail(
+				"distance_mapped_volume_follows",
+				format!("{} # volume 0..-20 dB over 0..{} set with a {} ns tween, emitter then moved to {} (distance {}): level {:e} {:e}, documented {:e} {:e}",
+					line, big_d, dur, fmt_v(ep2), d2_real, got[0], got[1], sc.l as f64 * want, sc.r as f64 * want),
+			);
+		}
+	}
+	// (j) nested spatial tracks: a spatial track inside another spatial track is spatialised against ITS OWN listener
+	//     and position. The enclosing track here (another listener, another position) has no attenuation and
+	//     strength 0, i.e. it passes its input on unchanged (exactly: oracle (c)), so the nested rendering of this
+	//     scene has to give the very samples of the scene itself; and when the inner track's listener is dropped the
+	//     inner track is silent although the enclosing track's listener lives on
+	{
+		let (nested, after_drop) = render_nested(sc);
+		if nested[0].to_bits() != o[0].to_bits() || nested[1].to_bits() != o[1].to_bits() {
+			out.oracle_fail(
+				"nested_spatial_own_listener",
+				format!("{} # nested in a pass-through spatial track bound to another listener: {:e} {:e}, alone: {:e} {:e}", line, nested[0], nested[1], o[0], o[1]),
+			);
+		}
+		if after_drop[0] != 0.0 || after_drop[1] != 0.0 {
+			out.oracle_fail("nested_spatial_no_listener", line);
 		}
 	}
 	// everything below speaks about directions, i.e. needs the listener's orientation
